@@ -278,22 +278,50 @@ func newUnifySysOrdered(r *vcore.Run, u *universe, cfg alphabetConfig, pol ociun
 		s.mode += fmt.Sprintf("/member%d-answers-first", firstMember)
 	}
 	diverged := false
-	s.extraKey = func() string { return fmt.Sprint(*injected >= failAt && failAt > 0) }
+	after := 0 // operations applied after the call during which one member failed
+	s.extraKey = func() string { return fmt.Sprint(*injected >= failAt && failAt > 0, after) }
+	s.opFilter = func(op Op) bool {
+		if !diverged {
+			return true
+		}
+		// after the failure only writes are of interest (their success must mean "applied to both")
+		switch op.K {
+		case "PushBlob", "PushManifest", "Mount", "Commit", "Write":
+			return true
+		}
+		return false
+	}
 	s.onStep = func(s *regSys, op Op, out Outcome, check bool) (tainted bool) {
 		if failAt > 0 {
 			if diverged {
-				return true
+				// The members legitimately differ now. What still holds: a write reports success only if
+				// it was applied to both members (e.g. the retry of the call that failed half-way).
+				after++
+				if check && out.OK {
+					for mi, m := range []*ocimem.Registry{m0, m1} {
+						if miss := c15EffectMissing(s, m, op); miss != "" {
+							s.r.Violate("history", fmt.Sprintf("C15/%s/success-but-not-applied-to-both-members/after-single-member-failure", op.K), s.caseOf(nil),
+								"a successful write is present in both members", fmt.Sprintf("member %d: %s", mi, miss))
+							return true
+						}
+					}
+				}
+				return after >= c15AfterFailure
 			}
 			if *injected >= failAt && !diverged {
 				// this is the call during which one member failed
 				diverged = true
 				if out.OK && check {
 					s.r.Violate("history", fmt.Sprintf("C15/%s/success-although-one-member-failed", op.K), s.caseOf(nil), "failure when only one member succeeded", op.String()+" reported success")
+					return true
 				}
-				return true // members legitimately diverge from here on: do not expand
+				return false // expanded further only to look at retries (see above)
 			}
 			if !check {
 				return false
+			}
+			if s.depth > failAt {
+				tainted = true // too deep for a failure followed by a retry: same states as the failure-free run
 			}
 		}
 		if !check {
@@ -317,6 +345,38 @@ func newUnifySysOrdered(r *vcore.Run, u *universe, cfg alphabetConfig, pol ociun
 	return s
 }
 
+// c15AfterFailure is the number of operations explored after a single-member failure.
+var c15AfterFailure = 1
+
+// c15EffectMissing reports what a successful write left out of member m ("" = nothing).
+func c15EffectMissing(s *regSys, m *ocimem.Registry, op Op) string {
+	ctx := context.Background()
+	switch op.K {
+	case "PushBlob":
+		if op.Bad != "" {
+			return ""
+		}
+		if _, err := m.ResolveBlob(ctx, op.Repo, sha256Digest(s.u.Blobs[op.B])); err != nil {
+			return "blob missing: " + err.Error()
+		}
+	case "Mount":
+		if _, err := m.ResolveBlob(ctx, op.Repo, sha256Digest(s.u.Blobs[op.B])); err != nil {
+			return "mounted blob missing: " + err.Error()
+		}
+	case "PushManifest":
+		dig := sha256Digest(s.u.Manifests[op.M].Data)
+		if _, err := m.ResolveManifest(ctx, op.Repo, dig); err != nil {
+			return "manifest missing: " + err.Error()
+		}
+		if op.Tag != "" {
+			if d, err := m.ResolveTag(ctx, op.Repo, op.Tag); err != nil || d.Digest != dig {
+				return fmt.Sprintf("tag %s does not point at the pushed manifest: %v %v", op.Tag, d.Digest, err)
+			}
+		}
+	}
+	return ""
+}
+
 func c15Check(r *vcore.Run) vcore.Coverage {
 	u := newUniverse()
 	states := c15MemberStates(u)
@@ -326,6 +386,9 @@ func c15Check(r *vcore.Run) vcore.Coverage {
 		c15CheckPair(r, u, states, k/n, k%n)
 		atomic.AddInt64(&pairs, 1)
 	})
+	refCases := c15CheckReferrers(r, u)
+	pairs += refCases
+	r.Notes["referrers_arrangements"] = refCases
 	var stTotal, trTotal int64
 	var notes []map[string]any
 	exhaustive := true
@@ -347,6 +410,7 @@ func c15Check(r *vcore.Run) vcore.Coverage {
 	depth := 2
 	if r.Thorough() {
 		depth = 3
+		c15AfterFailure = 2
 	}
 	cfg := c15Config(u)
 	run("write/concurrent-policy", func() vstate.System[Op] { return newUnifySys(r, u, cfg, ociunify.ReadConcurrent, 0, 0) }, depth)
@@ -358,7 +422,7 @@ func c15Check(r *vcore.Run) vcore.Coverage {
 	for k := 1; k <= 3; k++ {
 		for mbr := 0; mbr < 2; mbr++ {
 			k, mbr := k, mbr
-			run(fmt.Sprintf("write/member%d-fails-call-%d", mbr, k), func() vstate.System[Op] { return newUnifySys(r, u, cfg, ociunify.ReadConcurrent, k, mbr) }, k+1)
+			run(fmt.Sprintf("write/member%d-fails-call-%d", mbr, k), func() vstate.System[Op] { return newUnifySys(r, u, cfg, ociunify.ReadConcurrent, k, mbr) }, k+1+c15AfterFailure)
 		}
 	}
 	r.Notes["member_states"] = n
@@ -372,11 +436,15 @@ func c15Check(r *vcore.Run) vcore.Coverage {
 		"the concurrent read policy runs free here (its schedule space is explored exhaustively in C16)",
 	}
 	return vcore.Coverage{States: stTotal + pairs, Transitions: trTotal + 2*pairs*int64(len(sweepQueries(u, []string{"r", "s"}))), TracesImpl: trTotal, Evaluations: trTotal + pairs, Nontrivial: stTotal + pairs, Exhaustive: exhaustive,
-		Rule: fmt.Sprintf("read side: all %d x %d ordered pairs of member states x every read/list query x both read policies against the union model and against each other; write side: BFS over histories through ociunify over two equal ocimem members (reference-model oracle + members bit-identical after every transition) and with a single-member failure injected at the k-th mutating call (k <= 3, either member); non-trivial = distinct states + pairs", n, n)}
+		Rule: fmt.Sprintf("read side: all %d x %d ordered pairs of member states x every read/list query x both read policies against the union model and against each other; Referrers: all 8 x 8 subsets of three referrers of one subject x member delivery orders {ascending, descending, rotated} x both policies (union complete, duplicate-free, sorted); write side: BFS over histories through ociunify over two equal ocimem members (reference-model oracle + members bit-identical after every transition) and with a single-member failure injected at the k-th mutating call (k <= 3, either member), followed by every further operation (thorough: two) to check that a successful write - e.g. the retry - reached both members; non-trivial = distinct states + pairs", n, n)}
 }
 
 func c15Replay(r *vcore.Run, sub string, raw json.RawMessage) {
 	u := newUniverse()
+	if sub == "referrers" {
+		c15CheckReferrers(r, u)
+		return
+	}
 	if sub == "pair" {
 		var c c15PairCase
 		if json.Unmarshal(raw, &c) == nil {
